@@ -18,7 +18,7 @@ Env == IOEnv
 Has(name) == name \in DOMAIN Env /\ Env[name] = "1"
 C01 == Has("C01")  C02 == Has("C02")  C03 == Has("C03")  C04 == Has("C04")  C06 == Has("C06")
 C07 == Has("C07")  C09 == Has("C09")  C10 == Has("C10")  C12 == Has("C12")  C13 == Has("C13")
-C14 == Has("C14")  C15 == Has("C15")  C16 == Has("C16")  C20 == Has("C20")  EXT == Has("EXT")
+C11 == Has("C11")  C14 == Has("C14")  C15 == Has("C15")  C16 == Has("C16")  C20 == Has("C20")  EXT == Has("EXT")
 NeedLegal == C01 \/ C02 \/ C04 \/ C12 \/ C15 \/ C16 \/ C20
 
 VARIABLES l,        \* next line to consume
@@ -67,6 +67,7 @@ TracePlay == /\ IsEvent("play")
        IF r.res = "ok" THEN
           IF_((C02 \/ C15) /\ NeedLegal /\ ~legal /\ r.api # "unchecked", {<<"C15", "illegal-move-accepted", r.api, m>>})
           \cup IF_(C02 /\ legal /\ Make(pos, m) # logged, {<<"C02", "successor", m, Make(pos, m), logged>>})
+          \cup IF_(C11 /\ r.st.h = cur.h, {<<"C11", "move-does-not-change-hash", m>>})
        ELSE \* err (try_play) or panic (play): the move must be illegal and the board untouched
           IF_(C15 /\ legal, {<<"C15", "legal-move-refused", r.api, r.res, m>>})
           \cup IF_(C15 /\ r.res = "panic" /\ r.api # "play", {<<"C15", "unexpected-panic", r.api, m>>})
@@ -82,6 +83,7 @@ TraceNull == /\ IsEvent("null")
           \cup IF_(C14 /\ r.res = "some" /\ ok /\ logged # NullMake(pos), {<<"C14", "null-successor", NullMake(pos), logged>>})
           \cup IF_(C14 /\ r.res = "none" /\ r.st # cur, {<<"C14", "board-changed-by-refused-null">>})
           \cup IF_(C14 /\ r.res = "some" /\ SetOfSeq(r.st.chk) # {}, {<<"C14", "null-checkers">>})
+          \cup IF_(C11 /\ r.res = "some" /\ r.st.h = cur.h, {<<"C11", "null-move-does-not-change-hash">>})
           \cup IF_(C14 /\ r.res = "some" /\ OneKingEach(logged) /\ SetOfSeq(r.st.pin) # Pinned(logged), {<<"C14", "null-pinned", Pinned(logged), r.st.pin>>}))
 
 \* clock setters (beyond the listed properties): range check, nothing else moves
